@@ -326,3 +326,156 @@ func (e *Engine) checkSpawnNeverWrites(s *State, fr *Frame, fn *ssa.Function, c 
 		e.obligations[len(e.obligations)-1].Result = &SolverResult{Status: "sat", Solver: "static-frame-analysis", Output: why}
 	}
 }
+
+// checkAppendOnly: "append_only [tag] v" - inside every loop of the function, the local slice variable v is only ever
+// assigned `append(v, ...)`: what earlier iterations recorded in it is never dropped (a per-iteration reset of a list
+// that a deferred rollback walks would forget the earlier iterations' entries).
+func (e *Engine) checkAppendOnly(s *State, fn *ssa.Function, c *FuncContract) {
+	spec := c.Flags["append_only"]
+	if spec == "" {
+		return
+	}
+	tag := ""
+	if strings.HasPrefix(spec, "[") {
+		if k := strings.Index(spec, "]"); k > 0 {
+			tag = spec[1:k]
+			spec = strings.TrimSpace(spec[k+1:])
+		}
+	}
+	varName := strings.TrimSpace(spec)
+	loops := e.loopsOf(fn).Loops
+	inLoop := func(b *ssa.BasicBlock) bool {
+		for _, li := range loops {
+			if li.Blocks[b] {
+				return true
+			}
+		}
+		return false
+	}
+	var bad []string
+	found := false
+	for _, b := range fn.Blocks {
+		for _, in := range b.Instrs {
+			st, ok := in.(*ssa.Store)
+			if !ok {
+				continue
+			}
+			al, ok := st.Addr.(*ssa.Alloc)
+			if !ok || al.Comment != varName {
+				continue
+			}
+			found = true
+			if !inLoop(b) {
+				continue
+			}
+			okStore := false
+			if call, ok := st.Val.(*ssa.Call); ok {
+				if bi, ok := call.Common().Value.(*ssa.Builtin); ok && bi.Name() == "append" && len(call.Common().Args) > 0 {
+					if ld, ok := call.Common().Args[0].(*ssa.UnOp); ok && ld.X == ssa.Value(al) {
+						okStore = true
+					}
+				}
+			}
+			if !okStore {
+				bad = append(bad, "assignment at "+posString(e.fset, st.Pos())+" inside a loop is not append("+varName+", ...)")
+			}
+		}
+	}
+	if !found {
+		bad = append(bad, "no local variable "+varName+" is assigned in this function")
+	}
+	sort.Strings(bad)
+	goal := TTrue
+	why := "every assignment inside a loop appends to the variable"
+	if len(bad) > 0 {
+		goal = TFalse
+		why = strings.Join(bad, "; ")
+	}
+	name := fmt.Sprintf("%s#frame:%s", e.rootKey, tag)
+	s.addObligation("frame", name, tag, fn.Pos(), goal, varName+" only grows inside loops: "+why)
+	if len(bad) > 0 {
+		e.obligations[len(e.obligations)-1].Result = &SolverResult{Status: "sat", Solver: "static-frame-analysis", Output: why}
+	}
+}
+
+// checkNoEarlyExit: "no_early_exit [tag] x" - the loop whose body declares the local variable x (e.g. the range
+// variable) is left only at its head (the sequence is exhausted) or by returning from the function: no `break` (or
+// goto) skips the remaining elements. Decided on the control-flow graph.
+func (e *Engine) checkNoEarlyExit(s *State, fn *ssa.Function, c *FuncContract) {
+	for _, spec := range strings.Split(c.Flags["no_early_exit"], ";;") {
+		spec = strings.TrimSpace(spec)
+		if spec == "" {
+			continue
+		}
+		tag := ""
+		if strings.HasPrefix(spec, "[") {
+			if k := strings.Index(spec, "]"); k > 0 {
+				tag = spec[1:k]
+				spec = strings.TrimSpace(spec[k+1:])
+			}
+		}
+		varName := spec
+		// innermost loop whose blocks contain the declaration of varName
+		var loop *LoopInfo
+		for _, li := range e.loopsOf(fn).Loops {
+			has := false
+			for b := range li.Blocks {
+				for _, in := range b.Instrs {
+					if al, ok := in.(*ssa.Alloc); ok && al.Comment == varName {
+						has = true
+					}
+				}
+			}
+			if has && (loop == nil || len(li.Blocks) < len(loop.Blocks)) {
+				loop = li
+			}
+		}
+		var bad []string
+		if loop == nil {
+			bad = append(bad, "no loop declares a local variable "+varName)
+		} else {
+			returns := func(b *ssa.BasicBlock) bool {
+				for i := 0; i < 8 && b != nil; i++ {
+					if len(b.Instrs) == 0 {
+						return false
+					}
+					switch b.Instrs[len(b.Instrs)-1].(type) {
+					case *ssa.Return, *ssa.Panic:
+						return true
+					}
+					if len(b.Succs) != 1 {
+						return false
+					}
+					b = b.Succs[0]
+				}
+				return false
+			}
+			for b := range loop.Blocks {
+				if b == loop.Header {
+					continue
+				}
+				for _, t := range b.Succs {
+					if !loop.Blocks[t] && !returns(t) {
+						pos := "?"
+						if len(b.Instrs) > 0 {
+							pos = posString(e.fset, b.Instrs[len(b.Instrs)-1].Pos())
+						}
+						bad = append(bad, "the loop over "+varName+" is left from its body near "+pos+" without returning (break)")
+					}
+				}
+			}
+		}
+		sort.Strings(bad)
+		goal := TTrue
+		why := "left only at its head or by a return"
+		if len(bad) > 0 {
+			goal = TFalse
+			why = strings.Join(bad, "; ")
+		}
+		name := fmt.Sprintf("%s#frame:%s", e.rootKey, tag)
+		s.addObligation("frame", name, tag, fn.Pos(), goal, "loop over "+varName+": "+why)
+		if len(bad) > 0 {
+			e.obligations[len(e.obligations)-1].Result = &SolverResult{Status: "sat", Solver: "static-cfg-analysis", Output: why}
+		}
+	}
+}
